@@ -1047,8 +1047,9 @@ template <typename T>
 void bit_tpl(vf::Ctx& c, std::uint64_t& work)
 {
     if (!c.mine(work++)) { return; }
-    for (T a : patterns<T>()) {
-        for (unsigned pos = 0; pos < sizeof(T) * 8; ++pos) { run_bit_tpl<T>(a, pos); }
+    auto const& w = patterns<T>();
+    for (auto it = w.rbegin(); it != w.rend(); ++it) { // the words with bits in both halves come first
+        for (unsigned pos = 0; pos < sizeof(T) * 8; ++pos) { run_bit_tpl<T>(*it, pos); }
     }
 }
 template <auto Base>
